@@ -370,6 +370,35 @@ def _newton_dup():
     return float(np.abs(a - b).max() / np.abs(a).max())
 
 
+def ob_explicit_dirichlet():
+    """every hyperbolic algorithm: after a step the constrained dofs hold their (non-zero) prescribed value."""
+    import contextlib, io
+    from EasyFEA import Models, Simulations
+    from EasyFEA.Simulations.Solvers import AlgoType
+    mesh = patches.two_element_mesh("QUAD4")
+    co = np.asarray(mesh.coord)
+    n0 = np.where(np.isclose(co[:, 0], co[:, 0].min()))[0]
+    n1 = np.where(np.isclose(co[:, 0], co[:, 0].max()))[0]
+    n = 0
+    for algo in ("newmark", "midpoint", "hht", "euler_implicit", "euler_explicit"):
+        if algo not in AlgoType.__members__:
+            continue
+        sm = Simulations.Elastic(mesh, Models.Elastic.Isotropic(2, E=10.0, v=0.3))
+        sm.rho = 1.0
+        sm.Solver_Set_Hyperbolic_Algorithm(1e-3, algo=AlgoType[algo])
+        sm.add_dirichlet(n0, [0, 0], ["x", "y"])
+        sm.add_dirichlet(n1, [-0.5], ["y"])
+        with contextlib.redirect_stdout(io.StringIO()):
+            for _ in range(3):
+                sm.Solve()
+        u = np.asarray(sm.displacement).reshape(-1, 2)
+        n += 1
+        e = float(np.abs(u[n1, 1] + 0.5).max())
+        if e > 1e-12:
+            raise Refuted(f"algorithm {algo}: after 3 steps the dofs prescribed to -0.5 hold {u[n1, 1].tolist()}", cex=dict(algo=algo), signature=f"dirichlet:{algo}", replay=dict(confirmed=True, values=u[n1, 1].tolist()))
+    return Verdict(DISCHARGED, backend="native run", sub=n)
+
+
 def ob_newton_dup():
     try:
         e = _newton_dup()
@@ -895,6 +924,8 @@ def build(tier, seed):
     obs.append(Ob("C04.lagrange.dup", ob_lagrange_dup, (), "X", (f"{SOL}::__Solver_2", f"{SP}::_Simu._Bc_Lagrange_dim"), bound="one 2-beam frame",
                   clause="duplicated Dirichlet entries under the multiplier solver: finite, sum convention, connection exact", timeout=300))
     obs.append(Ob("C04.lagrange.beam", ob_lagrange, (), "X", (f"{SOL}::__Solver_2",), bound="one 2-beam frame", clause="connection constraints satisfied", timeout=300))
+    obs.append(Ob("C04.dynamic.dirichlet", ob_explicit_dirichlet, (), "X", (f"{SP}::_Simu._Solver_Apply_Dirichlet", f"{SP}::_Simu._Solver_Update_solutions"), bound="one 2-element patch, 3 steps per algorithm",
+                  clause="dynamic solves: constrained dofs hold their non-zero prescribed value with every time-integration algorithm", timeout=300))
     obs.append(Ob("C04.newton.dup", ob_newton_dup, (), "X", (f"{SP}::_Simu._Solver_Apply_Dirichlet",), bound="one 2-element hyperelastic patch", clause="Newton-incremental solve: a dof constrained twice holds the sum of the entered values", timeout=300))
     obs.append(Ob("C04.newton", ob_newton, (), "X", (f"{SP}::_Simu._Solver_Solve_Newton_Raphson", f"{SP}::_Simu._Solver_Apply_Dirichlet"), bound="3 load steps on one hyperelastic patch",
                   clause="constraints met after Newton-incremental solves", timeout=600))
